@@ -490,6 +490,26 @@ def _build_iso(desc, p_rel, q_mol, units=None, name="m-0", allow_des=True):
     })
 
 
+def build_hysteretic(desc, p_rel, q_ads_mol, q_des_mol, name="m-0"):
+    """One PointIsotherm with both branches on the same pressures: q_ads on the way up, q_des on the way down."""
+    fluid, T, *_ = iso_env(desc)
+    units = desc["units"]
+    prep, lrep, mrep = tuple(units["p"]), tuple(units["l"]), tuple(units["m"])
+    P = [float(ru.conv_pressure(float(v), REL, prep, fluid, T)) for v in p_rel]
+    Qa = [float(ru.conv_loading(float(v), MOL, lrep, fluid, T)) for v in q_ads_mol]
+    Qd = [float(ru.conv_loading(float(v), MOL, lrep, fluid, T)) for v in q_des_mol]
+    iso = K.build_point({
+        "units": K.units_dict(prep, lrep, mrep), "adsorbate": desc["adsorbate"], "T": T,
+        "material": {"name": name, "density": 1.7, "molar_mass": 420.0},
+        "pressure": P + P[::-1], "loading": Qa + Qd[::-1], "branch": [0] * len(P) + [1] * len(P),
+    })
+    c = desc.get("custom")
+    if c and c.get("private"):
+        iso.adsorbate = Adsorbate(CUSTOM_NAME, store=False, molar_mass=c["M"], liquid_density=c["rho"],
+                                  cross_sectional_area=c["cs"])
+    return iso
+
+
 def use_des(desc):
     """A third of the isotherm-entry cases put the data on the desorption branch (derived from the drawn temperature
     fraction, so no extra descriptor field is needed)."""
@@ -952,8 +972,16 @@ def _alphas_iso(desc, ctx):
         p = lo + u * (hi - lo)
         q_mmol = _gen_loading(desc, p) * 1e3
         p_ref, qref_mmol = p, q_mmol
-        iso = ref_iso = build_iso(desc, p, q_mmol * 1e-3, allow_des=False)
-        k_scale, ic = 1.0, 0.0
+        hysteretic_self = int(round(desc["p_hi"] * 1e6)) % 3 == 0
+        if hysteretic_self:
+            # ONE isotherm as sample and reference: its adsorption branch is the reference curve, its desorption branch
+            # a scaled and shifted copy - analysed desorption against adsorption
+            k_scale, ic = float(desc.get("scale") or 2.0), float(desc.get("icpt") or 0.0)
+            q_mmol = k_scale * qref_mmol + ic
+            iso = ref_iso = build_hysteretic(desc, p, qref_mmol * 1e-3, q_mmol * 1e-3)
+        else:
+            iso = ref_iso = build_iso(desc, p, q_mmol * 1e-3, allow_des=False)
+            k_scale, ic = 1.0, 0.0
         units_all = (desc["units"],)
     else:
         ur = unit_positions(desc["ref_inc"])
@@ -1001,6 +1029,9 @@ def _alphas_iso(desc, ctx):
     kwargs = {"reference_area": spec, "t_limits": None if lims is None else tuple(lims)}
     if desc["reducing"] is not None:
         kwargs["reducing_pressure"] = rp
+    if self_mode and hysteretic_self:
+        kwargs.update(branch="des", branch_ref="ads")
+        ctx.label("self_desorption_vs_adsorption")
     try:
         out = alpha_s(iso, ref_iso, **kwargs)
     except CalculationError as e:
